@@ -891,6 +891,10 @@ def parse_template(text):
         if mm:
             c = Clause("looppre", "", mm.group(2), loop=int(mm.group(1)))
             cur.clauses.append(c); last = ("clause", c); i += 1; continue
+        mm = re.match(r"^loop\s+(\d+)\s+(returns|after)\s*:\s?(.*)$", body)
+        if mm:
+            c = Clause("loop" + mm.group(2), "", mm.group(3), loop=int(mm.group(1)))
+            cur.clauses.append(c); last = ("clause", c); i += 1; continue
         mm = re.match(r"^loop\s+(\d+)\s+tail\s*:\s?(.*)$", body)
         if mm:
             c = Clause("looptail", "", mm.group(2), loop=int(mm.group(1)))
@@ -1179,7 +1183,7 @@ def build(template_text: str, repo: str, unit: str) -> Built:
             if not meta.get("stub"):
                 fn_ranges.append((first, last, meta["fn"], props, meta["src"]))
                 for c in ex.clauses:
-                    if c.kind in ("loopentry", "looppre", "loophead", "looptail"):
+                    if c.kind in ("loopentry", "looppre", "loophead", "looptail", "loopreturns", "loopafter"):
                         continue
                     clauses_out.append(dict(fn=meta["fn"], kind=c.kind, label=c.label,
                                             loop=c.loop, text=c.text, props=props))
@@ -1430,7 +1434,31 @@ def _build_fn(sf: SourceFile, item: Item, impl, ex: Extract, props, rep, unit, a
         kw = next(i for i, t in enumerate(body_toks) if getattr(t, "mark", None) == ("kw", ordn))
         br = next(i for i, t in enumerate(body_toks) if getattr(t, "mark", None) == ("brace", ordn))
         cl = loop_clauses.get(ordn, [])
-        spec = _render_loop_clauses([c for c in cl if c.kind not in ("loopentry", "looppre", "loophead", "looptail")])
+        spec = _render_loop_clauses([c for c in cl if c.kind not in ("loopentry", "looppre", "loophead", "looptail", "loopreturns", "loopafter")])
+        lafter = "\n".join(c.text for c in cl if c.kind == "loopafter")
+        if lafter:
+            # proof text right after the loop statement (structural anchor: survives any edit of the code that follows)
+            cb = match_close(body_toks, br)
+            body_toks[cb + 1:cb + 1] = [T("raw", "\n" + lafter + "\n")]
+        lrets = "\n".join(c.text for c in cl if c.kind == "loopreturns")
+        if lrets:
+            # proof text before every `return` inside the loop body: `return E` -> `{ HINT return E }` (structural anchor)
+            cb = match_close(body_toks, br)
+            rets = [k for k in range(br + 1, cb) if body_toks[k].kind == IDENT and body_toks[k].text == "return"]
+            for r in reversed(rets):
+                k = r + 1
+                lim = match_close(body_toks, br)
+                while k < lim:
+                    tk = body_toks[k]
+                    if tk.kind == PUNCT and tk.text in OPEN:
+                        k = match_close(body_toks, k) + 1; continue
+                    if tk.kind == PUNCT and tk.text in (";", ",", ")", "]", "}"):
+                        break
+                    k += 1
+                endpos = k + 1 if body_toks[k].text == ";" else k
+                body_toks[endpos:endpos] = [T("raw", " }")]
+                body_toks[r:r] = [T("raw", "{ " + lrets + " ")]
+            rep.append(("hint", f"loop {ordn}: hint placed before {len(rets)} return statement(s)"))
         ltail = "\n".join(c.text for c in cl if c.kind == "looptail")
         if ltail:
             # proof text at the very end of the loop body (before its closing brace)
